@@ -83,6 +83,7 @@ let () =
           let verdict =
             match outs with
             | "PANIC" :: _ -> "fail:panic"
+            | "CRASH" :: _ -> "fail:process-died-during-the-schedule(panic-in-a-goroutine-of-the-code-under-test)"
             | _ -> verdict_string toks (loracle lops (List.map parse_obs outs)) in
           Mlutil.print_model (List.map tok m) verdict
         end
